@@ -174,9 +174,86 @@ def serde_oracles(rng, tier):
     return out
 
 
+def py_varint(n):
+    out = []
+    while n >= 128:
+        out.append(n % 128 + 128)
+        n //= 128
+    return out + [n]
+
+
+def py_zigzag(w):
+    return 2 * w if w >= 0 else -2 * w - 1
+
+
+def py_pc_words(ws):
+    out = py_varint(len(ws))
+    for w in ws:
+        out += py_varint(py_zigzag(w))
+    return out
+
+
+def py_pc_solution(s_):
+    c, p_, data, muts = s_
+    out = py_varint(len(c)) + list(c) + py_varint(len(p_)) + list(p_) + py_varint(len(data))
+    for d in data:
+        out += py_pc_words(d)
+    out += py_varint(len(muts))
+    for k, v in muts:
+        out += py_pc_words(k) + py_pc_words(v)
+    return out
+
+
+def pc_cases(rng, tier):
+    """postcard: encoder (`pc`) and decoder (`pcdec`) of solutions / mutations / sets on model and code: valid encodings,
+    truncations, trailing bytes, flipped bytes, non-canonical and over-long varints, random bytes"""
+    cases = []
+    words = [0, 1, -1, 63, 64, -64, -65, 8191, 8192, I64_MIN, I64_MAX, I64_MIN + 1, I64_MAX - 1, 1 << 62, -(1 << 62)]
+    addrs = [bytes(32), bytes([0xFF]) * 32, ADDR_A, addr(5)]
+    def rwords(hi=4):
+        return [rng.choice(words) if rng.random() < 0.7 else rng.randrange(I64_MIN, I64_MAX + 1) for _ in range(rng.randrange(0, hi))]
+    def rsol():
+        return sol(rng.choice(addrs), rng.choice(addrs), [rwords() for _ in range(rng.randrange(0, 3))],
+                   [(rwords(), rwords()) for _ in range(rng.randrange(0, 3))])
+    for _ in range(40 if tier == "quick" else 2000):
+        s_ = rsol()
+        cases.append("pc solution " + sol_tok(s_))
+        enc = py_pc_solution(s_)
+        cases.append("pcdec solution " + hx(bytes(enc)))
+        cases.append("pcdec solution " + hx(bytes(enc + [rng.randrange(256) for _ in range(rng.randrange(1, 4))])))
+        if enc:
+            cut = rng.randrange(len(enc))
+            cases.append("pcdec solution " + hx(bytes(enc[:cut])))
+            j = rng.randrange(len(enc))
+            flipped = list(enc)
+            flipped[j] ^= 1 << rng.randrange(8)
+            cases.append("pcdec solution " + hx(bytes(flipped)))
+            # a redundant continuation byte in the first length prefix (32 -> 0xA0 0x00): accepted by postcard
+            cases.append("pcdec solution " + hx(bytes([enc[0] | 0x80, 0x00] + enc[1:])))
+        k, v = rwords(), rwords()
+        cases.append("pc mutation " + L(k) + " " + L(v))
+        m_enc = py_pc_words(k) + py_pc_words(v)
+        cases.append("pcdec mutation " + hx(bytes(m_enc)))
+        cases.append("pcdec mutation " + hx(bytes(m_enc[:rng.randrange(len(m_enc) + 1)])))
+        cases.append("pc set " + sols_tok([rsol() for _ in range(rng.randrange(0, 3))]))
+    # varint corner cases as a one-word key: ten bytes (last byte 0 / 1 / 2), eleven bytes, all-continuation
+    for body in ([0xFF] * 9 + [0x01], [0xFF] * 9 + [0x00], [0xFF] * 9 + [0x02], [0xFF] * 9 + [0x7F], [0x80] * 9 + [0x01], [0xFF] * 10 + [0x00],
+                 [0xFF] * 10, [0x80, 0x80, 0x00], [0x80] * 9 + [0x00], [0x81, 0x00], [0x80]):
+        cases.append("pcdec mutation " + hx(bytes([1] + body + [0])))
+        cases.append("pcdec mutation " + hx(bytes(body + [0])))
+    for n_ in (0, 1, 127, 128, 255, 256, 1 << 32, (1 << 64) - 1):
+        cases.append("pcdec mutation " + hx(bytes(py_varint(n_) + [0, 0, 0])))
+    for _ in range(100 if tier == "quick" else 5000):
+        raw = bytes(rng.choice([rng.randrange(256), 0, 1, 32, 0x80, 0xFF]) for _ in range(rng.randrange(0, 80)))
+        cases.append("pcdec solution " + hx(raw))
+        cases.append("pcdec mutation " + hx(raw))
+    return cases
+
+
 def c18_cases(rng, tier):
     cases, oracles = [], []
     oracles += serde_oracles(rng, tier)
+    cases += pc_cases(rng, tier)
     # predicates: sizes 0..limits, any edge_start incl. the leaf marker
     for nn, ne in ((0, 0), (1, 0), (0, 1), (1, 1), (2, 3), (1000, 1000), (1001, 0), (0, 1001), (1000, 1001), (999, 999)):
         nodes = [((i * 7) % 65536 if i % 3 else EDGE_MAX, addr(i)) for i in range(nn)]
